@@ -170,7 +170,15 @@ def conf_lines(r, n):
     return out
 
 
-GROUPS = {"der": der_lines, "bytestring": bytestring_lines, "pbe": pbe_lines, "conf": conf_lines}
+def mx_lines(r, n):
+    """sequences of C_Initialize flavours (failing ones in upper case) and C_Finalize"""
+    out = ["mxseq nfo", "mxseq nfa", "mxseq ofnfo", "mxseq Nfo", "mxseq NofAnfa", "mxseq oo", "mxseq f"]
+    for _ in range(n):
+        out.append("mxseq " + "".join(r.choice("nnooaafffNOA") for _ in range(r.choice([2, 3, 5, 8, 12]))))
+    return out
+
+
+GROUPS = {"mx": mx_lines, "der": der_lines, "bytestring": bytestring_lines, "pbe": pbe_lines, "conf": conf_lines}
 
 
 def run_group(ctx, kres, suite_name, group, n):
